@@ -480,15 +480,16 @@ theorem no_write_through_argument_alias : parsed = true ∧ writes.all writeOk =
 
 open Generated.C16Alias in
 /-- the `method`-dict finding is DERIVED from the source by the inter-method flow (`self.method = method` in
-`__init__`, `self.method['Fs'] = …` in `set_input`), and only `CoherenceAnalyzer` has it: in the repaired
+`__init__`, which then fills defaults into it), and only `CoherenceAnalyzer.__init__` has it (`set_input` rebinds a new dict since 8563e2b): in the repaired
 analyzers (`SpectralAnalyzer`, `SparseCoherenceAnalyzer`, `SeedCoherenceAnalyzer`: `self.method = dict(method)`)
 no write reaches a constructor argument -/
 theorem method_dict_finding_derived :
+    -- since repo fix 8563e2b `set_input` REBINDS `self.method = dict(self.method, Fs=…)`: no write through the attribute any more
     ((writes.filter fun w => w.func == "CoherenceAnalyzer.set_input").map fun w => (w.kind, w.target, w.ctorAliases))
-      = [("setitem", "self.method", ["CoherenceAnalyzer.__init__:method"])] ∧
+      = [("setattr", "self.method", [])] ∧
     ((writes.filter fun w => w.func == "CoherenceAnalyzer.__init__" && !w.argAliases.isEmpty).map fun w => w.argAliases)
       = [["method"], ["method"], ["method"]] ∧
-    (writes.all fun w => !(w.ctorAliases.any fun p => p.endsWith ":method") || w.func == "CoherenceAnalyzer.set_input") = true := by
+    (writes.all fun w => !(w.ctorAliases.any fun p => p.endsWith ":method")) = true := by
   decide +kernel
 
 /-! ### results are fresh objects
@@ -648,7 +649,7 @@ leaves every old object and the value of every old graph unchanged. -/
 theorem copy_shares_nothing_mutable (fuel : Nat) (h : Heap) (hc : Closed h) (s : GSeries)
     (hs : s.data < h.length ∧ s.time < h.length ∧ s.info < h.length)
     (hflat : Flat (obj h s.data) ∧ Flat (obj h s.time)) :
-    match seriesCopy sourceDiscipline fuel h s with
+    match Copy.seriesCopy sourceDiscipline fuel h s with
     | (h', .error _) => h' = h ∧ ∃ e, deepCopy fuel h s.info = .error e
     | (h', .ok c) =>
         (∃ e, h' = h ++ e) ∧
@@ -665,7 +666,7 @@ not deep-copyable, or a shape numpy refuses AFTER the copy was made — ⇒ the 
 theorem series_arith_shares_nothing_mutable (fuel : Nat) (f : Int → Int → Int) (h : Heap) (hc : Closed h) (s : GSeries)
     (other : Nat) (hs : s.data < h.length ∧ s.time < h.length ∧ s.info < h.length)
     (hflat : Flat (obj h s.data) ∧ Flat (obj h s.time)) :
-    match seriesArith sourceDiscipline fuel f h s other with
+    match Copy.seriesArith sourceDiscipline fuel f h s other with
     | (h', .error _) => h' = h
     | (h', .ok c) =>
         (∃ e, h' = h ++ e) ∧
@@ -682,23 +683,23 @@ generator, open file, object whose `__deepcopy__` raises) is reachable from the 
 and returns iff none is -/
 theorem copy_raises_iff_handle_reachable (fuel : Nat) (h : Heap) (hc : Closed h) (s : GSeries) (hs : s.info < h.length)
     (hd : depthLE fuel h s.info = true) :
-    ((seriesCopy sourceDiscipline fuel h s).2 = .error .typeError ↔ reachesHandle fuel h s.info = true) ∧
-    ((∃ c, (seriesCopy sourceDiscipline fuel h s).2 = .ok c) ↔ reachesHandle fuel h s.info = false) := by
+    ((Copy.seriesCopy sourceDiscipline fuel h s).2 = .error .typeError ↔ reachesHandle fuel h s.info = true) ∧
+    ((∃ c, (Copy.seriesCopy sourceDiscipline fuel h s).2 = .ok c) ↔ reachesHandle fuel h s.info = false) := by
   rw [copy_path_has_no_fallback.2.2.2.2.2.2.2.2]
   exact strict_copy_raises_iff_handle fuel h hc s hs hd
 
 open Copy in
 /-- a refused `copy()` leaves the heap as it was (failure clause), and is refused exactly when the deep copy is -/
 theorem refused_copy_leaves_heap (fuel : Nat) (h : Heap) (s : GSeries) (e : Err) :
-    ((seriesCopy .strict fuel h s).2 = .error e ↔ deepCopy fuel h s.info = .error e) ∧
-    (deepCopy fuel h s.info = .error e → seriesCopy .strict fuel h s = (h, .error e)) :=
+    ((Copy.seriesCopy .strict fuel h s).2 = .error e ↔ deepCopy fuel h s.info = .error e) ∧
+    (deepCopy fuel h s.info = .error e → Copy.seriesCopy .strict fuel h s = (h, .error e)) :=
   ⟨strict_copy_raises_iff fuel h s e, seriesCopy_strict_error fuel h s e⟩
 
 open Copy in
 /-- the fallback VARIANT (handler substitutes `copy.copy(self.metadata)` / `dict(self.metadata)`): whenever the deep copy raises it
 RETURNS a series whose metadata object holds the operand's own slots — every nested container is shared -/
 theorem fallback_variant_shares_nested (fuel : Nat) (h : Heap) (s : GSeries) (e : Err) (he : deepCopy fuel h s.info = .error e) :
-    ∃ h' c, seriesCopy .shallowFallback fuel h s = (h', .ok c) ∧ obj h' c.info = obj h s.info ∧ c.info = h.length :=
+    ∃ h' c, Copy.seriesCopy .shallowFallback fuel h s = (h', .ok c) ∧ obj h' c.info = obj h s.info ∧ c.info = h.length :=
   fallback_returns_shared_slots fuel h s e he
 
 open Copy in
@@ -706,13 +707,13 @@ open Copy in
 the operand's list (object 2), and the write `c.metadata['tags'][:] = [9]` changes the value of the ORIGINAL's metadata graph -/
 theorem fallback_variant_counterexample :
     let h : Heap := [[.val 1], [.val 0], [.val 1, .val 2], [.handle 0, .ref 2]]
-    seriesCopy .strict 5 h ⟨0, 1, 3⟩ = (h, .error .typeError) ∧
-    ∃ h' c, seriesCopy .shallowFallback 5 h ⟨0, 1, 3⟩ = (h', .ok c) ∧ 2 ∈ reach 2 h' c.info ∧ c.info ≠ 3 ∧
+    Copy.seriesCopy .strict 5 h ⟨0, 1, 3⟩ = (h, .error .typeError) ∧
+    ∃ h' c, Copy.seriesCopy .shallowFallback 5 h ⟨0, 1, 3⟩ = (h', .ok c) ∧ 2 ∈ reach 2 h' c.info ∧ c.info ≠ 3 ∧
       unfold 3 (write h' 2 [.val 9]) 3 ≠ unfold 3 h 3 :=
   shallow_fallback_counterexample
 
 open Copy in
-example : (seriesCopy sourceDiscipline 4 [[.val 1], [.val 0], [.val 1, .val 2], [.val 7, .ref 2]] ⟨0, 1, 3⟩).1.length = 8 := by
+example : (Copy.seriesCopy sourceDiscipline 4 [[.val 1], [.val 0], [.val 1, .val 2], [.val 7, .ref 2]] ⟨0, 1, 3⟩).1.length = 8 := by
   decide +kernel
 
 
